@@ -1,32 +1,39 @@
 import Driver.Common
-import Oidc.Model.Cache
+import Oidc.Model.CacheImpl
 import Oidc.Current
-/-! Driver for the cache family: replays Set/Get/Delete/Cleanup/tick on `Oidc.Cache` under the regenerated facts. -/
+/-! Driver for the cache family: replays Set/Get/Delete/Cleanup/tick on the three-structure model `Oidc.CacheImpl` (which
+`Oidc.Proofs.CacheImpl.R_run` proves to simulate the abstract list `Oidc.Cache` the property theorems are about) under the
+regenerated facts; predicts the answer and the contents of all three structures. -/
 open Lean Driver Oidc
 
 namespace Driver.Cache
 
-def pred (c : Cache.C) (r : String) : Json :=
-  Json.mkObj [("r", Json.str r), ("len", Json.num c.order.length),
-              ("order", Json.arr (c.order.map (fun e => Json.str e.key)).toArray)]
+def sortedKeys (l : List String) : Json := Json.arr ((l.toArray.qsort (· < ·)).map Json.str)
 
-def step (c : Cache.C) (j : Json) : Cache.C × Option Json :=
+def pred (c : CacheImpl.Impl) (r : String) : Json :=
+  if c.cap ≤ 16 then   -- small caches: the contents of all three structures (the harness reports them for these too)
+    Json.mkObj [("r", Json.str r), ("len", Json.num c.items.length),
+                ("order", Json.arr (c.order.map Json.str).toArray),
+                ("items", sortedKeys (c.items.map (·.key))), ("elems", sortedKeys c.elems)]
+  else Json.mkObj [("r", Json.str r), ("len", Json.num c.items.length)]
+
+def step (c : CacheImpl.Impl) (j : Json) : CacheImpl.Impl × Option Json :=
   let se := Current.se
   match jS j "op" with
-  | "new" => (Cache.init (jN j "cap"), none)
+  | "new" => (CacheImpl.init (jN j "cap"), none)
   | "set" =>
-    let c' := Cache.set se c (jI j "now") (jS j "k") (jN j "v") (jI j "ttl")
+    let c' := CacheImpl.set se c (jI j "now") (jS j "k") (jN j "v") (jI j "ttl")
     (c', some (pred c' "ok"))
   | "get" =>
-    let (c', r) := Cache.get se c (jI j "now") (jS j "k")
+    let (c', r) := CacheImpl.get se c (jI j "now") (jS j "k")
     (c', some (pred c' (match r with | some v => s!"hit {v}" | none => "miss")))
-  | "del" => let c' := Cache.delete c (jS j "k"); (c', some (pred c' "ok"))
-  | "clean" => let c' := Cache.cleanup se c (jI j "now"); (c', some (pred c' "ok"))
-  | "tick" => let c' := Cache.cleanup se c (jI j "now"); (c', some (Json.mkObj [("r", Json.str "ok")]))
+  | "del" => let c' := CacheImpl.delete c (jS j "k"); (c', some (pred c' "ok"))
+  | "clean" => let c' := CacheImpl.cleanup se c (jI j "now"); (c', some (pred c' "ok"))
+  | "tick" => let c' := CacheImpl.cleanup se c (jI j "now"); (c', some (Json.mkObj [("r", Json.str "ok")]))
   | _ => (c, none)
 
 def main : IO UInt32 := do
-  let n ← loop (← IO.getStdin) (← IO.getStdout) step (Cache.init 500) 0
+  let n ← loop (← IO.getStdin) (← IO.getStdout) step (CacheImpl.init 500) 0
   (← IO.getStderr).putStrLn s!"steps={n}"
   return 0
 
